@@ -33,9 +33,10 @@ SZ_quick == {<<1, 3, 1, "yes", "distinct">>, <<2, 2, 1, "yes", "distinct">>, <<2
 SZ_thorough == {<<1, 3, 1, "yes", "distinct">>, <<2, 3, 1, "yes", "distinct">>, <<3, 2, 1, "yes", "distinct">>, <<3, 3, 1, "no", "distinct">>, <<4, 3, 1, "no", "distinct">>}
 SZ_thorough2 == {<<1, 3, 2, "yes", "distinct">>, <<2, 3, 2, "yes", "distinct">>, <<3, 2, 2, "yes", "distinct">>, <<3, 3, 2, "no", "distinct">>, <<1, 3, 1, "yes", "same">>, <<2, 3, 1, "yes", "same">>, <<3, 2, 1, "yes", "same">>, <<1, 3, 1, "yes", "pairs">>, <<2, 3, 2, "yes", "pairs">>, <<1, 3, 1, "scalar", "distinct">>, <<2, 3, 2, "scalar", "distinct">>, <<3, 2, 1, "scalar", "distinct">>, <<1, 3, 1, "no", "seq0">>, <<1, 3, 1, "no", "seq1">>, <<1, 3, 1, "no", "seq2">>, <<1, 3, 1, "no", "seq3">>, <<1, 3, 2, "no", "seq0">>, <<1, 3, 2, "no", "seq1">>, <<1, 3, 2, "no", "seq2">>, <<1, 3, 2, "no", "seq3">>, <<2, 3, 1, "no", "seq0">>, <<2, 3, 1, "no", "seq1">>, <<2, 3, 1, "no", "seq2">>, <<2, 3, 1, "no", "seq3">>, <<2, 3, 2, "no", "seq0">>, <<2, 3, 2, "no", "seq1">>, <<2, 3, 2, "no", "seq2">>, <<2, 3, 2, "no", "seq3">>, <<3, 3, 1, "no", "seq0">>, <<3, 3, 1, "no", "seq1">>, <<3, 3, 1, "no", "seq2">>, <<3, 3, 1, "no", "seq3">>, <<1, 3, 1, "yes", "distinct", 3>>, <<2, 2, 1, "yes", "distinct", 2>>, <<3, 2, 2, "no", "distinct", 3>>, <<1, 2, 2, "scalar", "distinct", 2>>}
 SZ_beyond == {<<1, 2, 1, "beyond", "distinct">>}
+SZ_identity == {<<2, 2, 1, "no", "distinct", 2>>}
 SZ_gen_quick == {<<1, 3, 1, "yes", "distinct">>, <<2, 2, 1, "yes", "distinct">>, <<2, 3, 1, "no", "distinct">>, <<3, 3, 1, "no", "distinct">>, <<1, 3, 2, "yes", "distinct">>, <<2, 2, 2, "yes", "distinct">>, <<2, 3, 2, "no", "distinct">>, <<2, 2, 1, "yes", "same">>, <<1, 3, 1, "yes", "pairs">>, <<1, 3, 1, "scalar", "distinct">>, <<2, 2, 2, "scalar", "distinct">>, <<1, 2, 1, "no", "seq0">>, <<1, 2, 1, "no", "seq2">>, <<2, 2, 1, "no", "seq0">>, <<2, 2, 1, "no", "seq1">>, <<2, 3, 1, "no", "seq2">>, <<2, 3, 1, "no", "seq3">>, <<2, 2, 2, "no", "seq2">>}
 SZ_gen_spell_quick == {<<2, 2, 1, "no", "distinct", 2>>, <<2, 2, 2, "no", "distinct", 2>>, <<1, 2, 1, "yes", "distinct", 3>>, <<2, 1, 1, "yes", "distinct", 3>>, <<1, 2, 2, "scalar", "distinct", 2>>}
-SZ_gen_spell == {<<1, 3, 1, "yes", "distinct", 3>>, <<2, 2, 1, "yes", "distinct", 3>>, <<2, 2, 2, "yes", "distinct", 2>>, <<3, 2, 1, "no", "distinct", 3>>, <<3, 3, 2, "no", "distinct", 2>>, <<2, 2, 1, "yes", "same", 2>>, <<2, 2, 1, "scalar", "distinct", 3>>}
+SZ_gen_spell == {<<1, 3, 1, "yes", "distinct", 3>>, <<2, 2, 1, "yes", "distinct", 3>>, <<2, 2, 2, "yes", "distinct", 2>>, <<3, 2, 1, "no", "distinct", 3>>, <<3, 2, 2, "no", "distinct", 3>>, <<2, 3, 1, "no", "distinct", 2>>, <<2, 2, 1, "yes", "same", 2>>, <<2, 2, 1, "scalar", "distinct", 3>>}
 SZ_gen_join == {<<1, 3, 1, "no", "distinct">>, <<2, 3, 1, "no", "distinct">>, <<3, 3, 1, "no", "distinct">>, <<1, 3, 2, "no", "distinct">>, <<2, 3, 2, "no", "distinct">>, <<3, 3, 2, "no", "distinct">>}
 SZ_gen_join4 == {<<4, 3, 1, "no", "distinct">>}
 SZ_gen_cache == {<<1, 3, 1, "yes", "distinct">>, <<2, 3, 1, "yes", "distinct">>, <<3, 2, 1, "yes", "distinct">>}
@@ -173,6 +174,18 @@ SpellingIsNotKey == Fresh => /\ WellSpelled(C)
                              /\ JoinOutcomes(C, NK, TRUE) = JoinOutcomes(Plain(C), NK, TRUE)
                              /\ RunCalls(C, NK) = RunCalls(Plain(C), NK)
                              /\ \A t \in 1..NTab(C) : \A k \in TableKeys(C, t) : \A u \in OtherSpellings(C, t, k) : spell[u] # spell[t]
+
+\* the mechanism on the key cells: matching by rank gives the law whatever the spellings; a quotient that looks the cells up as
+\* objects does not (expected to FAIL in configuration `identity`: two classes of spellings are enough)
+CellsJoinIsLaw    == Fresh /\ ~AllScalar(C) => CellsAreLaw(C, MechCells(C, "ByRank", "ByRank"))
+\* the cache travels through the same join as two more outer-joined inputs: it decides neither the keys nor the number of rows,
+\* however it spells its keys, and every row sees its own cached value / expiry (None where there is none)
+CacheJoinIsLaw    == Fresh /\ ~AllScalar(C) => /\ JoinKeys(AsJoin(C)) = JoinKeys(C)
+                                                /\ CellsAreLaw(AsJoin(C), MechCells(AsJoin(C), "ByRank", "ByRank"))
+                                                /\ \A r \in MechCells(AsJoin(C), "ByRank", "ByRank") :
+                                                       /\ r.v[NIn(C) + 1] = (IF C.data = <<>> THEN None ELSE MechCache(C, r.k))
+                                                       /\ r.v[NIn(C) + 2] = MechExpiry(C, r.k)
+ObjectLookupIsLaw == Fresh /\ ~AllScalar(C) => CellsAreLaw(C, MechCells(C, "ByRank", "ByObject"))
 
 \* ---- the evaluation machine against the law ----------------------------------------------------
 Started == phase # "new"
